@@ -607,136 +607,19 @@ def check_r3(rep, objs=None):
             rep.violation(Finding("R3", meta["what"], "normalise", "%s does not normalise its input: %s" % (meta["what"], bad), None, None, detail={"witness": fname}))
 
 
-def check_r4(rep):
-    """unit norm of exp on both sides of the switch, in the truncated-series domain: |A(x)^2 x^2 + B(x)^2 - 1| at theta*"""
-    import math
-    import jet
-    import switches
-    rep.rule("R4", "SO3Impl::exp returns a unit quaternion: A^2*theta^2 + B^2 = 1 to 1e-14 on both branches at the switch", minimum=2)
-    dumps = fe.ast_dumps(switches.FILTERS)
-    objs = []
-    for f_ in switches.FILTERS:
-        objs += dumps[f_]
-    idx = A.index(objs)
-    switches.W_EPS2["value"] = switches.find_eps2(idx)
-    W = switches.load_weights()
-    sites = [s_ for s_ in switches.find_sites(idx) if s_.decl.qname == "SO3Impl::exp"]
-    if len(sites) != 1:
-        rep.broke("R4: switch of SO3Impl::exp not found")
-        return
-    st = sites[0]
-    try:
-        r = switches.analyse_site(st, W)
-    except jet.Unsupported as ex:
-        rep.broke("R4: cannot abstract SO3Impl::exp: %s" % ex)
-        return
-    # the two returned values must be used as (A*a.x, A*a.y, A*a.z, B)
-    body = A.ntext(A.body(st.decl.node))
-    if "g_out<<A*a_in.x(),A*a_in.y(),A*a_in.z(),B;" not in body or len(r["small"]) != 2:
-        rep.broke("R4: SO3Impl::exp no longer stores (A*a, B); re-derive the norm rule")
-        return
-    theta = math.sqrt(r["threshold"])
-    x2 = jet.Series.var(2)
-    for name, vals in (("series", r["small"]), ("closed-form", r["large"])):
-        Aq, Bq = vals
-        dev = Aq * Aq * x2 + Bq * Bq - jet.Series.const(1)
-        if dev.c and dev.val() < 0:
-            worst = float("inf")
-        else:
-            worst = dev.sup_abs(theta)
-        ok = worst <= 1e-14
-        rep.instance("R4", "SO3Impl::exp", name, ok=ok, sample={"file": fe.rel(st.file), "line": st.line, "norm_deviation": dev.short(3), "at_theta_star": worst})
-        if not ok:
-            rep.violation(Finding("R4", "SO3Impl::exp", name,
-                                  "the %s branch returns a quaternion whose squared norm deviates from 1 by %s, i.e. up to %.2g for rotation angles below %.0e "
-                                  "(unit-norm invariant allows 1e-14 per operation); the deviation accumulates over += / rplus steps"
-                                  % (name, dev.short(3), worst, theta), st.file, st.line))
+def check_r4(rep, tier="quick"):
+    """R4: exp returns unit rotation coefficients on both sides of the small-angle switch.  Rule T's machinery (engine R: the optimized IR of
+    |coeffs(exp(t a0))|^2 interpreted over truncated series in t) shows the closed-form path equal to 1 to order 8 and bounds the deviation of the polynomial
+    path at the largest t that selects it by 1e-14 -- whatever the source spells the two branches like."""
+    import raychk
+    raychk.run(rep, tier, "C15", ["unitnorm"], 1e-14, rule="R4", minimum=4)
 
 
-def check_r5(rep, objs):
-    """R5: conversions that build a quaternion from an angle (lift_so3, rot_x/y/z) are well conditioned over the whole circle: the first-order
-    rounding model of props/switches.py, evaluated numerically at angles towards the half turn, predicts a unit-norm defect below 100x the
-    single-operation budget 2e-14 (the model is pessimistic; only gross ill-conditioning such as sqrt((1 + cos)/2) near pi is reported)."""
-    import math
-    import re
-    import switches
-    import jet
-    rep.rule("R5", "angle -> quaternion conversions: predicted unit-norm defect from rounding stays below 2e-12 at every angle incl. pi - 10^-k", minimum=4)
-    idx = A.index(objs)
-    targets = []
-    for d in idx:
-        if d.kind in A.FUNCS and d.pattern and A.body(d.node) is not None and d.file and d.file.startswith(fe.INCLUDE):
-            nm = d.qname.split("::")[-1]
-            if nm == "lift_so3" and "SO2" in d.qname:
-                targets.append((d, "so2"))
-            elif nm in ("rot_x", "rot_y", "rot_z") and "SO3" in d.qname:
-                targets.append((d, "angle"))
-    if len(targets) < 4:
-        rep.broke("R5: found %d of lift_so3 / rot_x / rot_y / rot_z" % len(targets))
-        return
-    angles = [math.pi - 10.0 ** (-k) for k in (1, 2, 4, 6, 8)] + [-math.pi + 1e-4, math.pi / 2, 1e-3, 2.0]
-    for d, kind in targets:
-        fn = d.node
-        # coefficient expressions of the quaternion: Eigen::Quaternion<Scalar>(w, x, y, z) or `coeffs() << x, y, z, w`
-        comp = None
-        for x in A.walk(A.body(fn)):
-            if x.get("kind") in ("CXXTemporaryObjectExpr", "CXXUnresolvedConstructExpr", "CXXFunctionalCastExpr", "CXXConstructExpr", "ParenListExpr", "InitListExpr") and "Quaternion<" in A.ntext(x):
-                e = A.to_expr(x)
-                args = e[2] if e[0] in ("ctor", "call") else (e[1] if e[0] == "init" else None)
-                if args and len(args) == 4:
-                    comp = list(args)
-                    break
-        if comp is None:
-            for x in A.walk(A.body(fn)):
-                if x.get("kind") in ("CXXOperatorCallExpr", "BinaryOperator") and "<<" in A.ntext(x) and "coeffs()" in A.ntext(x) and A.to_expr(x)[:2] == ("op", ","):
-                    items = []
-
-                    def flat(e):
-                        if e[0] == "op" and e[1] in ("<<", ","):
-                            flat(e[2])
-                            flat(e[3])
-                        else:
-                            items.append(e)
-                    flat(A.to_expr(x))
-                    if len(items) == 5:
-                        comp = items[1:]
-                        break
-        if comp is None:
-            rep.broke("R5: cannot find the quaternion coefficients in %s" % d.qname)
-            continue
-        ps = [p_.get("name") for p_ in A.params(fn)]
-        worst = None
-        try:
-            for th in angles:
-                class NE(switches.NumErrEnv):
-                    def eve(self, e, th=th):
-                        t = A.show(e)
-                        if re.search(r"(coeffs\(\)|\bc|\bq)\.x\(\)$", t) and kind == "so2":
-                            return math.sin(th), abs(math.sin(th)) * self.u
-                        if re.search(r"(coeffs\(\)|\bc|\bq)\.y\(\)$", t) and kind == "so2":
-                            return math.cos(th), abs(math.cos(th)) * self.u
-                        if re.search(r"log\(\)\.x\(\)$", t) or re.search(r"angle\(\)$", t):
-                            return th, abs(th) * self.u
-                        return super().eve(e)
-                bind = {ps[0]: th} if (kind == "angle" and ps) else {}
-                ne = NE(fn, bind, 2.0 ** -53)
-                vals = [ne.eve(c) for c in comp]
-                defect = sum(2 * abs(v) * er for v, er in vals)
-                if worst is None or defect > worst[0]:
-                    worst = (defect, th)
-        except jet.Unsupported as ex:
-            if "division by zero" in str(ex):
-                worst = (float("inf"), th)
-            else:
-                rep.broke("R5: cannot evaluate the rounding model of %s: %s" % (d.qname, ex))
-                continue
-        ok = worst[0] < 2e-12
-        rep.instance("R5", d.qname, "conditioning", ok=ok, sample={"file": fe.rel(d.file), "line": d.line, "worst_predicted_norm_defect": worst[0], "at_angle": worst[1]})
-        if not ok:
-            rep.violation(Finding("R5", d.qname, "conditioning",
-                                  "the quaternion coefficients are computed by an expression that is ill-conditioned at angle %.9g (pi - %.1e): rounding is amplified to a "
-                                  "predicted unit-norm defect of %.2g (budget 2e-14 per operation); at the half turn itself it divides by zero"
-                                  % (worst[1], math.pi - abs(worst[1]), worst[0]), d.file, d.line))
+def check_r5(rep, objs=None):
+    """R5: conversions that build a quaternion from an angle (lift_so3, rot_x/y/z) are well conditioned over the whole circle -- the rounding-bound
+    domain of props/roundir.py on the optimized IR of the conversions, independent of how the source spells them."""
+    import roundir
+    roundir.run_conversions(rep, "R5")
 
 
 def check(rep, tier, replay=None):
@@ -751,5 +634,5 @@ def check(rep, tier, replay=None):
     rep.unit("umbrella TU filtered Impl / SO2,SO3 classes")
     check_r2(rep, A.index(d["Impl"]))
     check_r3(rep, d["smooth::SO2"] + d["SO3"])
-    check_r4(rep)
+    check_r4(rep, tier)
     check_r5(rep, d["smooth::SO2"] + d["SO3"])
